@@ -73,6 +73,8 @@ def rod(h, interp="Quaternion", method="_eval", shared=(), op=None, seed=0):
     qb = qa if "qe" in shared else mk("b_", "b")
     xa = xis["a"]
     xb = xa if "xi" in shared else xis["b"]
+    Boff = h.vec("Boff", 3)          # body-fixed offset of the queried cross-section point
+    uvec = h.vec("uel", r.nu_element)
 
     def call(qe, xi):
         N, N_xi = r.basis_functions_r(xi)
@@ -82,8 +84,18 @@ def rod(h, interp="Quaternion", method="_eval", shared=(), op=None, seed=0):
             return r._deval(qe, xi, N, N_xi)
         if method == "A_IB":
             return r.A_IB(0.0, qe, xi)
+        ue = np.zeros(r.nu_element)
         if method == "r_OP":
-            return r.r_OP(0.0, qe, xi, h.vec("B", 3) if False else np.zeros(3))
+            return r.r_OP(0.0, qe, xi, Boff)
+        if method == "r_OP_q":
+            return r.r_OP_q(0.0, qe, xi, Boff)
+        if method == "v_P":
+            return r.v_P(0.0, qe, uvec, xi, Boff)
+        if method == "J_P":
+            return r.J_P(0.0, qe, xi, Boff)
+        if method == "strains_after_offset_query":
+            r.r_OP(0.0, qe, xi, Boff)
+            return r._eval(qe, xi, N, N_xi)
     call(qa, xa)
     if op == "set_reference_strains":
         Q2 = np.asarray(Q, dtype=object if h.sym else float).copy()
@@ -115,13 +127,17 @@ def sphere2sphere(h, method="t1t2", shared=(), op=None, seed=0):
     _cmp(h, method, con, lambda t_, q_: f(t_, q_), (tb, qb))
 
 
-def mesh(h, shared=(), seed=0):
+def mesh(h, shared=(), seed=0, knot=None):
     from cardillo.rods.discretization.lagrange import LagrangeKnotVector
     from cardillo.rods.discretization.mesh1D import Mesh1D
-    kv = LagrangeKnotVector(2, 2)
+    kv = LagrangeKnotVector(2, 4 if knot else 2)
     m = Mesh1D(kv, 2, 3, derivative_order=1)
     xa, ea = 0.25, 0
     xb, eb = (xa if "xi" in shared else 0.75), (ea if "el" in shared else None)
+    if knot:
+        # both one-sided evaluations (and the default one) at an element boundary, in either order
+        kn = float(kv.data[knot[0]])
+        (xa, ea), (xb, eb) = (kn, knot[1]), (kn, knot[2])
     m.eval_basis(xa, ea)
     v = m.eval_basis(xb, eb)
     m._eval_basis_cache.clear()
@@ -154,7 +170,7 @@ def cases(tier, seed):
                     continue
                 cs.append(Case(f"rb/{method}/share[{','.join(sh)}]/{op}", rigid_body, dict(method=method, shared=sh, op=op, seed=seed), timeout=T))
     for interp in ("Quaternion", "R12"):
-        for method in ("_eval", "_deval", "A_IB"):
+        for method in ("_eval", "_deval", "A_IB", "r_OP", "r_OP_q", "v_P", "J_P", "strains_after_offset_query"):
             for sh in _subsets(("qe", "xi")):
                 for op in (None, "set_reference_strains", "step_callback", "quadrature_sweep"):
                     cs.append(Case(f"rod/{interp}/{method}/share[{','.join(sh)}]/{op}", rod, dict(interp=interp, method=method, shared=sh, op=op, seed=seed), timeout=T))
@@ -164,4 +180,7 @@ def cases(tier, seed):
                 cs.append(Case(f"s2s/{method}/share[{','.join(sh)}]/{op}", sphere2sphere, dict(method=method, shared=sh, op=op, seed=seed), timeout=T))
     for sh in _subsets(("xi", "el")):
         cs.append(Case(f"mesh/share[{','.join(sh)}]", mesh, dict(shared=sh, seed=seed), timeout=T, sentinel=False))
+    for k in (1, 2):
+        for ea, eb in itertools.permutations((k - 1, k, None), 2):
+            cs.append(Case(f"mesh/knot{k}/el={ea}-then-{eb}", mesh, dict(knot=(k, ea, eb), seed=seed), timeout=T, sentinel=False))
     return cs
